@@ -1,7 +1,7 @@
 (* One entry point for the OCaml runner: op name and byte-string arguments
    in, (result bytes, tag text) out.  All structure is decoded here, in Coq. *)
 From Coq Require Import NArith ZArith List Bool String.
-From GJ Require Import Base.Bytes Base.Show Model.Int Model.StrEnc Model.StrDec Model.Compact Model.Iface Model.Path Model.KeyBitmap Spec.Json Gen.Resets Model.Mem Base.TypeAddrBase Gen.TypeAddr Model.TypeCache.
+From GJ Require Import Base.Bytes Base.Show Model.Int Model.StrEnc Model.StrDec Model.Compact Model.Iface Model.Path Model.KeyBitmap Spec.Json Gen.Resets Model.Mem Base.TypeAddrBase Gen.TypeAddr Model.TypeCache Model.Stream Model.StreamInst.
 Import ListNotations.
 Open Scope N_scope.
 Open Scope string_scope.
@@ -114,4 +114,15 @@ Definition dispatch (op : list N) (args : list (list N)) : list N * list N :=
      let d := if race then dec_race ta p else dec_norace ta p in
      (if N.eqb (nth 0 (arg 3 args) 0) 49 then show_slot e else [45]) ++ [32] ++
      (if N.eqb (nth 1 (arg 3 args) 0) 49 then show_slot d else [45]), [])
+  else if list_eqb op (str "c09.bool") then
+    (* arg0: the document, arg1: ascending cut positions in decimal separated by spaces *)
+    (let cuts := map (fun f => N.to_nat (dec_N f)) (filter (fun f => negb (Nat.eqb (List.length f) 0)) (split_on 32 (arg 1 args))) in
+     match bool_decode (arg 0 args) cuts with
+     | Value _ (BAccept None) n => str "A null @" ++ show_N (N.of_nat n)
+     | Value _ (BAccept (Some true)) n => str "A true @" ++ show_N (N.of_nat n)
+     | Value _ (BAccept (Some false)) n => str "A false @" ++ show_N (N.of_nat n)
+     | Value _ BReject _ => [82]
+     | ReaderError _ => str "reader-error"
+     | OutOfFuel _ => str "fuel"
+     end, [])
   else (str "no-model", []).
